@@ -22,7 +22,7 @@ void h_sjp_verify(void) {
     secp256k1_context ctx;
     INPUT(secp256k1_surjectionproof, proof);
     INPUT(size_t, n_tags); INPUT(secp256k1_generator, outtag); INPUT(size_t, gi); INPUT(size_t, gk); INPUT(size_t, gb); INPUT(int, nullsel);
-    secp256k1_generator *tags; int ret; unsigned char sb[32]; size_t j, nb, n_used; int ov = 0;
+    secp256k1_generator *tags; int ret, counted; unsigned char sb[32]; size_t j, nb, n_used; int ov = 0;
     __CPROVER_assume(n_tags <= MAXT);
     /* valid_surjectionproof */
     __CPROVER_assume(proof.n_inputs <= SECP256K1_SURJECTIONPROOF_MAX_N_INPUTS);
@@ -44,12 +44,14 @@ void h_sjp_verify(void) {
         ret = secp256k1_surjectionproof_verify(&ctx, &proof, tags, n_tags, &outtag);
         __CPROVER_assert(ret == 0 || ret == 1, "C11 verify: returns 0 or 1");
         __CPROVER_assert(g_illegal == 0 && g_error == 0, "C11 verify: no callback for non-NULL arguments and a valid proof object, whatever its bytes");
-        __CPROVER_assert(g_cb_n >= 1 && g_cb_count == nb && (gk >= nb || g_cb_byte == proof.used_inputs[gk]), "C11 verify: the used-input count is the bit count of the proof's ceil(n/8) bitmap bytes");
-        n_used = g_cb_ret;
-        if (n_used == 0 || n_used > proof.n_inputs || proof.n_inputs != n_tags)
-            __CPROVER_assert(ret == 0, "C11 verify: empty selection, more used than total inputs, or tag-count mismatch rejected");
+        /* counted = the bit count of the proof's ceil(n/8) bitmap bytes was taken (it need not be on paths that reject earlier) */
+        counted = g_cb_n >= 1 && g_cb_count == nb && (gk >= nb || g_cb_byte == proof.used_inputs[gk]);
+        n_used = counted ? g_cb_ret : 0;
+        if (secp256k1_surjectionproof_n_total_inputs(&ctx, &proof) != n_tags) __CPROVER_assert(ret == 0, "C11 verify: tag-count mismatch rejected");
+        if (ret == 1) __CPROVER_assert(counted && n_used >= 1 && n_used <= n_tags, "C11 verify: accepts only a non-empty selection of at most n_total inputs, counted on the proof's bitmap");
+        if (counted && (n_used == 0 || n_used > n_tags)) __CPROVER_assert(ret == 0, "C11 verify: empty selection or more used than total inputs rejected");
 #ifndef VERIF_NATIVE
-        if (gi < n_used) {
+        if (counted && gi < n_used) {
             wide sv = be256(sb);
             __CPROVER_assert(verif_sj_bad == (sv >= N_()), "C11 verify: (harness) ghost flag equals the specification of an out-of-range scalar");
             if (sv >= N_()) __CPROVER_assert(ret == 0, "C11 verify: any of the n_used scalars >= n rejects (every ring position)");
@@ -67,7 +69,7 @@ void h_sjp_verify(void) {
         }
 #ifdef EL_BOUND
         /* accept side (bounded stand-in only: needs all scalars at once): every gate passed => the verdict decides */
-        {   int all_ok = (n_used >= 1 && n_used <= proof.n_inputs && proof.n_inputs == n_tags); size_t q;
+        {   int all_ok = (counted && n_used >= 1 && n_used <= proof.n_inputs && proof.n_inputs == n_tags); size_t q;
             for (q = 0; q < EL_BOUND; q++) if (q < n_used) {
                 secp256k1_scalar t; int o = 0; secp256k1_scalar_set_b32(&t, &proof.data[32 + 32 * q], &o);
                 if (o) all_ok = 0;
@@ -82,12 +84,12 @@ void h_sjp_verify(void) {
 #endif
         if (ret == 1 && n_used == 1) REACH("sjp verify accepts 1 used input");
         if (ret == 0 && g_bv_n == 1) REACH("sjp verify negative verdict");
-        if (ret == 0 && n_used == 0) REACH("sjp verify rejects the empty selection");
+        if (ret == 0 && counted && n_used == 0) REACH("sjp verify rejects the empty selection");
     } else {
         if (nullsel == 1) ret = secp256k1_surjectionproof_verify(&ctx, NULL, tags, n_tags, &outtag);
         else if (nullsel == 2) ret = secp256k1_surjectionproof_verify(&ctx, &proof, NULL, n_tags, &outtag);
         else ret = secp256k1_surjectionproof_verify(&ctx, &proof, tags, n_tags, NULL);
-        __CPROVER_assert(ret == 0 && g_illegal == 1 && g_error == 0, "C11 verify: NULL argument reports illegal use and returns 0");
+        __CPROVER_assert(ret == 0 && g_illegal >= 1 && g_error == 0, "C11 verify: NULL argument reports illegal use and returns 0");
         REACH("sjp verify NULL argument");
     }
 }
